@@ -4,9 +4,12 @@
    section (first mutex section = LJoin; the creator's select = LWake with any cause, timers fire at any
    time; second mutex section = LUnpublish; ctx.Err() test + safeInvoke = LRun with whatever Many did
    (results of any length, error, panic) or LCancel; close(doneCh) = LDone; LReturn; LCtxCancel at any time).
-   [run (init ms) tr = Some s]: s is reached by the schedule tr with Func.MaxSize = ms.  A caller is
-   identified by the position of its Join in the schedule; a group's args are caller ids.  All statements
-   hold for every MaxSize, every schedule (hence every number of callers, arrival order, shard assignment,
+   One batch context, any number of Funcs: a Func is a number, [mss] lists the Funcs' MaxSize (0 = none),
+   pendingBatchGroups is keyed by (Func, shard).  [run (init mss) tr = Some s]: s is reached by the schedule
+   tr.  A caller is identified by the position of its Join in the schedule; a group's args are caller ids.
+   Only the creator's context exists in the model: Invoke does not look at the context of a caller that
+   joins an existing group (theorem waiter_context_ignored), so cancelling a waiter's context is not a step.
+   All statements hold for every list of MaxSizes, every schedule (hence every number of callers, arrival order, shard assignment,
    timer behaviour, outcome of Many, cancellation point) and every state reached, without bound. *)
 From Coq Require Import List Arith.
 From Thunder Require Import Batch.Model Batch.Proofs.
@@ -14,8 +17,8 @@ Import ListNotations.
 
 (* A caller that returned got, after its group was done, either the group's error or element [index] of
    what Many returned for exactly the group's argument list, in which the caller sits at [index]. *)
-Theorem return_value : forall ms tr s ci cl r,
-  run (init ms) tr = Some s -> nth_error (callers s) ci = Some cl -> c_ret cl = Some r ->
+Theorem return_value : forall mss tr s ci cl r,
+  run (init mss) tr = Some s -> nth_error (callers s) ci = Some cl -> c_ret cl = Some r ->
   exists g, nth_error (groups s) (c_gid cl) = Some g /\ g_done g = true /\
             nth_error (g_args g) (c_index cl) = Some ci /\
             ((exists e, g_err g = Some e /\ r = RErr e) \/
@@ -27,8 +30,8 @@ Print Assumptions return_value.
 
 (* Every argument is in exactly one group, at its recorded index: the recorded slot holds the caller,
    every slot of every group is the recorded slot of the caller it holds, and no caller occupies two slots. *)
-Theorem argument_in_exactly_one_group : forall ms tr s,
-  run (init ms) tr = Some s ->
+Theorem argument_in_exactly_one_group : forall mss tr s,
+  run (init mss) tr = Some s ->
   (forall ci cl, nth_error (callers s) ci = Some cl ->
      exists g, nth_error (groups s) (c_gid cl) = Some g /\ nth_error (g_args g) (c_index cl) = Some ci) /\
   (forall gi g i ci, nth_error (groups s) gi = Some g -> nth_error (g_args g) i = Some ci ->
@@ -43,8 +46,8 @@ Print Assumptions argument_in_exactly_one_group.
    list (nobody joined after the call); a group that is done without a call was cancelled (its creator's
    context was cancelled and the group's error is the context error).  With the previous theorem: every
    argument is passed to Many at most once, and exactly once unless its group was cancelled. *)
-Theorem many_called_once_unless_cancelled : forall ms tr s gi,
-  run (init ms) tr = Some s ->
+Theorem many_called_once_unless_cancelled : forall mss tr s gi,
+  run (init mss) tr = Some s ->
   runs_of gi tr <= 1 /\
   (forall g, nth_error (groups s) gi = Some g ->
      (runs_of gi tr = 1 <-> g_phase g = Ran) /\
@@ -53,24 +56,40 @@ Theorem many_called_once_unless_cancelled : forall ms tr s gi,
 Proof. exact many_once_lemma. Qed.
 Print Assumptions many_called_once_unless_cancelled.
 
-(* A batch never exceeds MaxSize (when MaxSize > 0). *)
-Theorem batch_size_le_maxsize : forall ms tr s gi g,
-  run (init ms) tr = Some s -> nth_error (groups s) gi = Some g -> 0 < ms -> length (g_args g) <= ms.
+(* A batch never exceeds the MaxSize of its Func (when that is > 0). *)
+Theorem batch_size_le_maxsize : forall mss tr s gi g,
+  run (init mss) tr = Some s -> nth_error (groups s) gi = Some g ->
+  0 < nth (g_fid g) mss 0 -> length (g_args g) <= nth (g_fid g) mss 0.
 Proof. exact size_lemma. Qed.
 Print Assumptions batch_size_le_maxsize.
 
-(* A batch never mixes shards: every caller in a group has the group's shard. *)
-Theorem batch_shard_homogeneous : forall ms tr s gi g i ci,
-  run (init ms) tr = Some s -> nth_error (groups s) gi = Some g -> nth_error (g_args g) i = Some ci ->
-  exists cl, nth_error (callers s) ci = Some cl /\ c_shard cl = g_shard g.
+(* A batch never mixes shards, nor Funcs: every caller in a group called the group's Func and has the group's
+   shard.  In particular two Funcs that map their arguments to equal shard values never share a group. *)
+Theorem batch_func_and_shard_homogeneous : forall mss tr s gi g i ci,
+  run (init mss) tr = Some s -> nth_error (groups s) gi = Some g -> nth_error (g_args g) i = Some ci ->
+  exists cl, nth_error (callers s) ci = Some cl /\ c_shard cl = g_shard g /\ c_fid cl = g_fid g.
 Proof. exact shard_lemma. Qed.
-Print Assumptions batch_shard_homogeneous.
+Print Assumptions batch_func_and_shard_homogeneous.
+
+(* The pending map sends the key (Func, shard) to a group of exactly that Func and shard. *)
+Theorem pending_keyed_by_func_and_shard : forall mss tr s f sh gi,
+  run (init mss) tr = Some s -> lookup f sh (pending s) = Some gi ->
+  exists g, nth_error (groups s) gi = Some g /\ g_fid g = f /\ g_shard g = sh.
+Proof. exact pending_key_lemma. Qed.
+Print Assumptions pending_keyed_by_func_and_shard.
+
+(* Invoke ignores the context of a caller that joins an existing group: the step is the same whether that
+   context is cancelled or not (it is only handed to TemporarilyRelease while waiting for doneCh). *)
+Theorem waiter_context_ignored : forall s f a sh c1 c2 gi,
+  lookup f sh (pending s) = Some gi -> step s (LJoin f a sh c1) = step s (LJoin f a sh c2).
+Proof. exact waiter_context_ignored_lemma. Qed.
+Print Assumptions waiter_context_ignored.
 
 (* done is set on every path: from every reachable state every group's creator has enabled steps, at most
    four and only its own, that lead to done, whatever Many does and whether or not the context is cancelled
    ([rank] = number of creator steps left) ... *)
-Theorem done_reachable : forall ms tr s gi g,
-  run (init ms) tr = Some s -> nth_error (groups s) gi = Some g ->
+Theorem done_reachable : forall mss tr s gi g,
+  run (init mss) tr = Some s -> nth_error (groups s) gi = Some g ->
   exists tr' s' g', length tr' = rank g /\ length tr' <= 4 /\ (forall l, In l tr' -> label_group l = Some gi) /\
                     run s tr' = Some s' /\ nth_error (groups s') gi = Some g' /\ g_done g' = true.
 Proof. exact done_reachable_lemma. Qed.
@@ -78,8 +97,8 @@ Print Assumptions done_reachable.
 
 (* ... and once the group is done, the Return of every caller of it is enabled and yields the group's
    value / error (every caller has a group). *)
-Theorem return_enabled_when_done : forall ms tr s ci cl,
-  run (init ms) tr = Some s -> nth_error (callers s) ci = Some cl -> c_ret cl = None ->
+Theorem return_enabled_when_done : forall mss tr s ci cl,
+  run (init mss) tr = Some s -> nth_error (callers s) ci = Some cl -> c_ret cl = None ->
   exists g, nth_error (groups s) (c_gid cl) = Some g /\
     (g_done g = true ->
      exists s' cl', step s (LReturn ci) = Some s' /\ nth_error (callers s') ci = Some cl' /\
@@ -94,20 +113,33 @@ Print Assumptions return_enabled_when_done.
    their own results; group 1's creator is cancelled; caller 4 joins group 2 between its wake-up and its
    unpublish; Many returns a short result for group 2. *)
 Example ex_trace : list label :=
-  [ LJoin 10 0 false; LJoin 11 0 false; LJoin 12 1 false; LJoin 13 0 false;
+  [ LJoin 0 10 0 false; LJoin 0 11 0 false; LJoin 0 12 1 false; LJoin 0 13 0 false;
     LWake 0 CMaxSize; LUnpublish 0; LRun 0 (ORes [100; 110]); LDone 0; LReturn 1; LReturn 0;
     LCtxCancel 1; LWake 1 CCtxDone; LUnpublish 1; LCancel 1; LDone 1; LReturn 2;
-    LWake 2 CInterval; LJoin 14 0 false; LUnpublish 2; LRun 2 (ORes [130]); LDone 2; LReturn 3; LReturn 4 ].
+    LWake 2 CInterval; LJoin 0 14 0 false; LUnpublish 2; LRun 2 (ORes [130]); LDone 2; LReturn 3; LReturn 4 ].
 Example ex_reachable :
-  option_map (fun s => (map g_args (groups s), map c_ret (callers s), pending s)) (run (init 2) ex_trace)
+  option_map (fun s => (map g_args (groups s), map c_ret (callers s), pending s)) (run (init [2]) ex_trace)
   = Some ([[0; 1]; [2]; [3; 4]],
           [Some (RVal 100); Some (RVal 110); Some (RErr ECtx); Some (RErr EWrongLen); Some (RErr EWrongLen)], []).
 Proof. vm_compute. reflexivity. Qed.
 
+(* two Funcs (MaxSize 0 and 2) whose arguments all have shard 0: callers of Func 0 and of Func 1 form
+   different groups although the shard values are equal; Func 1 rolls over at 2; a waiter with a cancelled
+   context still gets its value *)
+Example ex_two_funcs :
+  option_map (fun s => (map (fun g => (g_fid g, g_args g)) (groups s), map c_ret (callers s)))
+    (run (init [0; 2])
+       [ LJoin 0 1 0 false; LJoin 1 2 0 false; LJoin 0 3 0 true; LJoin 1 4 0 false; LJoin 1 5 0 false;
+         LWake 1 CMaxSize; LUnpublish 1; LRun 1 (ORes [20; 40]); LDone 1; LReturn 1; LReturn 3;
+         LWake 0 CInterval; LUnpublish 0; LRun 0 (ORes [10; 30]); LDone 0; LReturn 0; LReturn 2 ])
+  = Some ([(0, [0; 2]); (1, [1; 3]); (1, [4])],
+          [Some (RVal 10); Some (RVal 20); Some (RVal 30); Some (RVal 40); None]).
+Proof. vm_compute. reflexivity. Qed.
+
 (* Many cannot run before the group is unpublished, nor twice, nor on a cancelled context *)
 Example ex_not_enabled :
-  run (init 0) [LJoin 1 0 false; LWake 0 CInterval; LRun 0 OErr] = None /\
-  run (init 0) [LJoin 1 0 false; LWake 0 CInterval; LUnpublish 0; LRun 0 OErr; LRun 0 OErr] = None /\
-  run (init 0) [LJoin 1 0 true; LWake 0 CCtxDone; LUnpublish 0; LRun 0 OErr] = None /\
-  run (init 0) [LJoin 1 0 false; LReturn 0] = None.
+  run (init []) [LJoin 0 1 0 false; LWake 0 CInterval; LRun 0 OErr] = None /\
+  run (init []) [LJoin 0 1 0 false; LWake 0 CInterval; LUnpublish 0; LRun 0 OErr; LRun 0 OErr] = None /\
+  run (init []) [LJoin 0 1 0 true; LWake 0 CCtxDone; LUnpublish 0; LRun 0 OErr] = None /\
+  run (init []) [LJoin 0 1 0 false; LReturn 0] = None.
 Proof. vm_compute. repeat split; reflexivity. Qed.
